@@ -3,7 +3,7 @@ package main
 import "sort"
 
 func genReader(c *Ctx) string  { return genHeader }
-func genWriter(c *Ctx) string  { return genHeader }
+
 func genJson(c *Ctx) string    { return genHeader }
 func genServer(c *Ctx) string  { return genHeader }
 func genEffects(c *Ctx) string { return genHeader }
